@@ -136,6 +136,57 @@ def text_family(chk, exe, d, tier, rng):
     return ok
 
 
+def bootstrap(chk, d):
+    """The largest X program there is - the X compiler written in X (tests/x/xhexb.x) - as a compiler under test: xhexb.x is given three
+    implementations (compiled by xcmp; compiled by xcmp's output, i.e. by itself; compiled by the shipped tests/asm/xhexb.S, an independent
+    build of the same compiler) and every implementation of one program must turn the same input into the same output (Determinism:
+    key = (program, input), cfg = who compiled the host).  A difference is recorded as DRIFT, not as a violation: XLang cannot run a
+    billion steps to rule out that xhexb.x is order-dependent somewhere."""
+    import corpus, hashlib
+    tdir = corpus.tools()
+    wd = os.path.join(d, "bootfix"); os.makedirs(wd, exist_ok=True)
+    xsrc = os.path.join(vlib.REPO, "tests/x/xhexb.x")
+    def sim(host, inp):
+        for fn in os.listdir(wd):
+            if fn.startswith("simout"):
+                os.remove(os.path.join(wd, fn))
+        p = vlib.sh([os.path.join(tdir, "hexsim"), host], cwd=wd, input=inp, timeout=600)
+        prod = open(os.path.join(wd, "simout2"), "rb").read() if os.path.exists(os.path.join(wd, "simout2")) else b""
+        return p.stdout, prod
+    hosts = {}
+    hosts["xcmp"] = os.path.join(wd, "g_xcmp.bin")
+    vlib.sh([os.path.join(tdir, "xcmp"), xsrc, "-o", hosts["xcmp"]], check=True, timeout=300)
+    vlib.sh([os.path.join(tdir, "hexasm"), os.path.join(vlib.REPO, "tests/asm/xhexb.S"), "-o", os.path.join(wd, "g_shipped0.bin")], check=True, timeout=300)
+    xtext = open(xsrc, "rb").read()
+    # second generations: xhexb.x compiled by each first-generation compiler
+    _, p1 = sim(hosts["xcmp"], xtext); hosts["self"] = os.path.join(wd, "g_self.bin"); open(hosts["self"], "wb").write(p1)
+    _, q1 = sim(os.path.join(wd, "g_shipped0.bin"), xtext); hosts["shipped"] = os.path.join(wd, "g_shipped.bin"); open(hosts["shipped"], "wb").write(q1)
+    history = []
+    # inputs: the repository's X programs that xcmp itself accepts (tests/x/globals.x, which it rejects, makes the compilers fold
+    # `1 and 2 and 3` - `and` on values that are not truth values, which X leaves undefined - and they do disagree on it)
+    inputs = [("xhexb.x", xtext)]
+    for f in corpus.repo_sources_x():
+        if not f.endswith("xhexb.x") and vlib.sh([os.path.join(tdir, "xcmp"), f, "-o", os.path.join(wd, "probe.bin")], cwd=wd, timeout=120).returncode == 0:
+            inputs.append((os.path.basename(f), open(f, "rb").read()))
+    for name, inp in inputs:
+        for who, host in hosts.items():
+            if not os.path.getsize(host):
+                continue
+            so, prod = sim(host, inp)
+            history.append({'key': "xhexb.x|" + name, 'cfg': "host built by " + who, 'obs': "%s:%s:%d" % (hashlib.sha256(so).hexdigest()[:16], hashlib.sha256(prod).hexdigest()[:16], len(prod))})
+    history.append({'key': history[0]['key'], 'cfg': 'canary', 'obs': 'CANARY'})
+    hf = os.path.join(d, "bootfix.ndjson"); vlib.write_ndjson(hf, history)
+    out = vlib.tlc_fold("Determinism", "DeterminismF.cfg", [hf], heap="2g")[0][0][0]
+    bad = [b for b in out['bad'] if b['cfg2'] != 'canary']
+    if out['nbad'] - len(bad) != 1:
+        raise vlib.MachineryError("bootstrap canary not reported by Determinism")
+    chk.set("bootstrap_fixpoint_inputs", len(inputs)); chk.set("bootstrap_fixpoint_observations", len(history) - 1)
+    chk.set("bootstrap_generation_sizes", {k: os.path.getsize(v) for k, v in hosts.items()})
+    chk.set("DRIFT_bootstrap_implementations_of_xhexb_disagree", len(bad))
+    if bad:
+        chk.set("bootstrap_drift_examples", bad[:3])
+
+
 def judge(chk, cases, res, verd, pid=PID):
     cnt = collections.Counter()
     ok = 0
@@ -237,6 +288,7 @@ def run(tier, replay=None):
         ok, cnt = judge(chk, cases, res, verd[:-1])
         steps = sum(v['n'] for v in verd[:-1])
         ok += text_family(chk, exe, d, tier, rng)
+        bootstrap(chk, d)
         frames(chk, exe, cases, verd[:-1], d, tier)
         chk.add("states", steps); chk.add("transitions", steps)
         chk.set("programs", len(cases))
